@@ -20,7 +20,11 @@ pub struct GroupT { regex: &'static str, key: String, optional: bool, intent: In
 pub struct PatT { name: String, prefix: String, sep: String, groups: Vec<GroupT>, split: Option<&'static str> }
 
 const INT_TEXTS: &[&str] = &["0", "-1", "42", "+7", "007", "9223372036854775807", "9223372036854775808", "-9223372036854775808", "-9223372036854775809", "4294967297", "", "12a", "1.0", " 5", "1e3", "-0"];
-const REAL_TEXTS: &[&str] = &["1.5", "-0.0", "1e5", "inf", "-inf", "NaN", ".5", "1.", "1e400", "--1", "2", "+3.25", "1e-400", "1.2.3", "infinity", "0x10", "1_0", "e5", ""];
+const REAL_TEXTS: &[&str] = &["1.5", "-0.0", "1e5", "inf", "-inf", "NaN", ".5", "1.", "1e400", "--1", "2", "+3.25", "1e-400", "1.2.3", "infinity", "0x10", "1_0", "e5", "",
+    // plain decimals of 16-25 digits: each must come out as the correctly rounded double (folding the digits into an integer and
+    // dividing by a power of ten rounds twice and is one step off for these)
+    "156226912729.756367", "980134110.5616701", "3912472292621.9308", "345956.625465809932", "7857696820473812.4", "9926359.151072815", "76397103211.5259197",
+    "0.1000000000000000055511151231257827", "9007199254740993.0", "123456789012345678901234.5", "0.30000000000000004", "2.675", "8.41e21", "+980134110.5616701", "-3912472292621.9308"];
 const WORD_TEXTS: &[&str] = &["a", "abc", "Zed", "x", "true", "false", "NULL", "\u{e5}ngstr\u{f6}m", "Jan"];
 const ANY_TEXTS: &[&str] = &["", " ", "  padded  ", "\tx\t", "plain text", "a\rb", "\r7", "cr at end\r", "x\u{85}y", "x\u{2028}y", "form\u{c}feed", "v\u{b}t", "\u{a0}nbsp\u{a0}", "42", "1:02:03", "2021-03-04 05:06:07", "2021-3-4 5:6:7", " 2021-03-04 05:06:07", "2021-13-04 05:06:07", "2021-02-30 00:00:00", "2021-03-04 24:00:00", "2021-03-04 05:06:60", "100:00:00", "1:2", "a:b:c", "-1:00:00", "2562047788016:00:00", "9223372036854775807:0:0", "0:9223372036854775807:0", "0:307445734561825861:0", "1:153722867280912931:5", "0:0:9223372036854775807", "true", "\u{1F600}", "\u{feff}bom", "\u{feff}"];
 const YEARS: &[&str] = &["2021", "1970", "0", "-1", "99999", "4294969317", "9999", "262143", "300000", "x"];
